@@ -246,6 +246,12 @@ def stepD (st : DSt) (fs : List String) : DSt × String :=
     match n.toNat?, k.toNat? with
     | some n, some k => if n = 0 ∨ k ≥ n then (st, "bad-op") else (st, "ok|token:gone")
     | _, _ => (st, "bad-op")
+  | ["orphanrace", n] =>
+    -- a rewrite of the entry that is not a use (orphaning) interleaved with a use: the count is the uses' alone
+    -- (`C19.non_use_rewrite_preserves_count`)
+    match n.toNat? with
+    | some n => if n = 0 then (st, "bad-op") else (st, s!"uses:{n}")
+    | none => (st, "bad-op")
   | ["sealdenied", n, "ns"] =>
     -- the same with a token of a child namespace: the use step is the token's, whatever namespace the request names
     match n.toNat? with
